@@ -51,7 +51,16 @@ Record obs := mkObs {
   o_tbl : list (key * (N * Z));
   o_store : list (key * N) }.
 
-Record sstep := mkStep { s_op : sop; s_obs : obs }.
+(** a script step: one action followed by a quiescence wait, or a *burst*: several
+    actions issued back-to-back (ordered = true: by one goroutine, each call
+    returned before the next was made; ordered = false: by one goroutine each,
+    released together) without waiting in between, then one quiescence wait *)
+Inductive sstep :=
+| mkStep (o : sop) (ob : obs)
+| mkBurst (ordered : bool) (acts : list sop) (ob : obs).
+
+Definition s_obs (x : sstep) : obs :=
+  match x with mkStep _ ob | mkBurst _ _ ob => ob end.
 
 (** the polling waiter (Redis): the script is the same kind of thing, but the
     only observation is who returned what, and it is checked one-sidedly *)
@@ -68,13 +77,24 @@ Record qstep := mkQStep { p_op : pop; p_ret : list (tid * res) }.
     context was cancelled before it returned, and what it returned *)
 Record srec := mkSRec { sr_v : N; sr_cands : list (option N); sr_cancelled : bool; sr_res : res }.
 
+(** tight free-running race rounds (in-memory): a few calls start while a writer
+    writes its key once or twice; no context is cancelled and no record has an
+    expiry before the snapshot.  One record per sampled round, taken through the
+    hook after the writer's last call returned:
+      rr_cur     the raw record of the key (version tag) or None,
+      rr_count   the count of the key's waiter-table entry (0 = no entry),
+      rr_pending the version tags given to the calls that had not returned,
+      rr_rets    the calls that returned (with the states the key had during the round) *)
+Record rround := mkRR { rr_cur : option N; rr_count : Z; rr_pending : list N; rr_rets : list srec }.
+
 Inductive case :=
 | CaseMem (id : N) (keys : list key) (steps : list sstep)
 | CasePoll (id : N) (steps : list qstep) (still_waiting : list tid)
-| CaseStress (id : N) (recs : list srec).
+| CaseStress (id : N) (recs : list srec)
+| CaseRace (id : N) (rounds : list rround).
 
 Definition c_id (c : case) : N :=
-  match c with CaseMem id _ _ => id | CasePoll id _ _ => id | CaseStress id _ => id end.
+  match c with CaseMem id _ _ => id | CasePoll id _ _ => id | CaseStress id _ => id | CaseRace id _ => id end.
 
 (** * the in-memory check *)
 Definition res_eqb (a b : res) : bool :=
@@ -240,32 +260,154 @@ Record vstate := mkV { v_st : st; v_vb : bij; v_cb : bij; v_trace : list label }
 (** unknown version: tag 0 <-> model version 0 (never produced: nextver starts at 1) *)
 Definition vinit : vstate := mkV init [(0%N, 0%N)] [] [].
 
-Definition check_step (keys : list key) (v : vstate) (x : sstep) : option vstate :=
-  let s := v_st v in
-  match apply_sop s (v_vb v) (s_op x) with
-  | None => None
-  | Some (s1, vb1, ls1) =>
-      match saturate sat_fuel s1 [] with
-      | None => None
-      | Some (s2, ls2) =>
-          let o := s_obs x in
-          if ret_eqb (newly_done s s2) (o_ret o)
-             && nats_eqb (parked_list (thr s2) 0) (o_parked o)
-             && forallb (fun p => mem (fst p) keys) (o_tbl o)
-             && forallb (fun p => mem (fst p) keys) (o_store o)
-             && negb (dblclose s2)
-          then
-            match tbl_match s2 (v_cb v) keys (o_tbl o) with
-            | None => None
-            | Some cb' =>
-                match store_match s2 vb1 keys (o_store o) with
-                | None => None
-                | Some vb' => Some (mkV s2 vb' cb' (v_trace v ++ ls1 ++ ls2))
-                end
+(** the quiescent model state [s2] reached from [s] agrees with the observation *)
+Definition obs_match (keys : list key) (s s2 : st) (vb1 cb : bij) (o : obs) : option (bij * bij) :=
+  if ret_eqb (newly_done s s2) (o_ret o)
+     && nats_eqb (parked_list (thr s2) 0) (o_parked o)
+     && forallb (fun p => mem (fst p) keys) (o_tbl o)
+     && forallb (fun p => mem (fst p) keys) (o_store o)
+     && negb (dblclose s2)
+  then
+    match tbl_match s2 cb keys (o_tbl o) with
+    | None => None
+    | Some cb' =>
+        match store_match s2 vb1 keys (o_store o) with
+        | None => None
+        | Some vb' => Some (vb', cb')
+        end
+    end
+  else None.
+
+(** ** bursts: search for an interleaving that explains the observation
+
+    Between the quiescent point before a burst and the one after it the
+    implementation performed the burst's actions and any number of steps of the
+    calls, interleaved by the scheduler.  The validator does not predict the
+    interleaving: it searches ALL of them (depth first) and accepts iff one ends
+    in a quiescent model state that agrees with the observation.
+
+    Nodes of the search: (model state, version bijection, actions not yet applied).
+    Moves: - an action that is not yet applied ([ordered]: only the first one;
+             otherwise any of them, starts of calls in their issue order because
+             the call ids are assigned at issue time), through [apply_sop], i.e.
+             with its observed result checked;
+           - for every call, every label of [enabled_of], a wake-up label fused
+             with the locked section that follows it ([WakeChan t; LCheck t],
+             [WakeCtx t; CancelSec t], [WakeExpiry t; ExpirySec t]).  Fusing loses
+             nothing: a wake-up label changes nothing but the pc of its own call,
+             no label of anybody else reads that pc, and what enables a wake-up (a
+             closed channel, a done context, a due timer) stays true, so in any
+             trace it can be moved right up to the next label of its call, which
+             exists in a run that ends in a quiescent state.
+    A branch is cut as soon as a call has returned something the observation does
+    not contain (results are final).  [fuel] bounds the depth only (every branch
+    of a burst of n actions with m calls is shorter than 2 + n + 2 * m * (n + 2)).
+    The fused search is only the fast path: before a burst is rejected the search
+    is repeated with [mac = single], every label on its own ([explain_burst_gen] in [check_step]). *)
+Fixpoint first_some {A B} (f : A -> option B) (l : list A) : option B :=
+  match l with
+  | [] => None
+  | x :: tl => match f x with Some y => Some y | None => first_some f tl end
+  end.
+
+Definition all_enabled (s : st) : list label := flat_map (enabled_of s) (seq 0 (length (thr s))).
+
+Definition macro_of (l : label) : list label :=
+  match l with
+  | WakeChan t => [WakeChan t; LCheck t]
+  | WakeCtx t => [WakeCtx t; CancelSec t]
+  | WakeExpiry t => [WakeExpiry t; ExpirySec t]
+  | _ => [l]
+  end.
+
+Definition is_start (o : sop) : bool := match o with SStart _ _ _ => true | _ => false end.
+
+(** unordered burst: any pending action may be next, except a start behind another pending start *)
+Fixpoint picks_u (seen : bool) (pre : list sop) (l : list sop) : list (sop * list sop) :=
+  match l with
+  | [] => []
+  | x :: tl =>
+      (if is_start x && seen then [] else [(x, rev_append pre tl)])
+      ++ picks_u (seen || is_start x) (x :: pre) tl
+  end.
+
+Definition picks (ordered : bool) (l : list sop) : list (sop * list sop) :=
+  if ordered then match l with [] => [] | x :: tl => [(x, tl)] end else picks_u false [] l.
+
+Definition ret_mem (p : tid * res) (l : list (tid * res)) : bool :=
+  existsb (fun q => Nat.eqb (fst q) (fst p) && res_eqb (snd q) (snd p)) l.
+
+Definition rets_possible (s0 s : st) (o : obs) : bool :=
+  forallb (fun p => ret_mem p (o_ret o)) (newly_done s0 s).
+
+Fixpoint search {X} (fuel : nat) (mac : label -> list label) (ordered : bool) (alive : st -> bool)
+    (accept : st -> bij -> option X)
+    (s : st) (vb : bij) (pend : list sop) (acc : list label) : option (st * X * list label) :=
+  match fuel with
+  | O => None
+  | S f =>
+      if alive s then
+        let en := all_enabled s in
+        match pend, en with
+        | [], [] => match accept s vb with Some x => Some (s, x, rev acc) | None => None end
+        | _, _ =>
+            match first_some (fun p =>
+                     match apply_sop s vb (fst p) with
+                     | Some (s1, vb1, ls1) => search f mac ordered alive accept s1 vb1 (snd p) (rev_append ls1 acc)
+                     | None => None
+                     end) (picks ordered pend) with
+            | Some r => Some r
+            | None =>
+                first_some (fun l =>
+                     let m := mac l in
+                     match run s m with
+                     | Some s1 => search f mac ordered alive accept s1 vb pend (rev_append m acc)
+                     | None => None
+                     end) en
             end
-          else None
+        end
+      else None
+  end.
+
+Definition burst_fuel : nat := 200.
+Definition single (l : label) : list label := [l].
+
+(** first with fused wake-ups (few interleavings); if that finds nothing, once more label
+    by label, where at every node EVERY pending action and EVERY enabled label of EVERY
+    call is tried: a burst is rejected only if no interleaving at all explains it *)
+Definition explain_burst_gen {X} (f1 f2 : nat) (ordered : bool) (alive : st -> bool)
+    (accept : st -> bij -> option X) (s : st) (vb : bij) (acts : list sop) : option (st * X * list label) :=
+  match search f1 macro_of ordered alive accept s vb acts [] with
+  | Some r => Some r
+  | None => search f2 single ordered alive accept s vb acts []
+  end.
+
+
+Definition check_step_gen (f1 f2 : nat) (keys : list key) (v : vstate) (x : sstep) : option vstate :=
+  let s := v_st v in
+  match x with
+  | mkStep op o =>
+      match apply_sop s (v_vb v) op with
+      | None => None
+      | Some (s1, vb1, ls1) =>
+          match saturate sat_fuel s1 [] with
+          | None => None
+          | Some (s2, ls2) =>
+              match obs_match keys s s2 vb1 (v_cb v) o with
+              | Some (vb', cb') => Some (mkV s2 vb' cb' (v_trace v ++ ls1 ++ ls2))
+              | None => None
+              end
+          end
+      end
+  | mkBurst ordered acts o =>
+      match explain_burst_gen f1 f2 ordered (fun s2 => rets_possible s s2 o)
+                              (fun s2 vb1 => obs_match keys s s2 vb1 (v_cb v) o) s (v_vb v) acts with
+      | Some (s2, (vb', cb'), ls) => Some (mkV s2 vb' cb' (v_trace v ++ ls))
+      | None => None
       end
   end.
+
+Definition check_step := check_step_gen burst_fuel (2 * burst_fuel).
 
 Fixpoint check_steps (keys : list key) (v : vstate) (l : list sstep) : option vstate :=
   match l with
@@ -396,10 +538,31 @@ Definition srec_ok (x : srec) : bool :=
   | RCtx => sr_cancelled x
   end.
 
+(** * race rounds: the state behind [C07_wait_no_lost_wakeup], read through the hook
+
+    In every reachable state an entry (c, n) of the waiter table has n >= 1 calls
+    registered on it, and each of them is parked for the version of the record
+    that is stored under the key now, or has a done context, or had a timer
+    (theorem [C07_entry_waiters_current]).  In a race round nothing is cancelled
+    and nothing expires before the snapshot, so: the count is at most the number
+    of calls that have not returned and were given the current version, and there
+    is no entry at all when the record is absent.  A count above that is a call
+    that registered (and parks) for a version that is no longer current: it
+    missed the write. *)
+Definition rround_ok (r : rround) : bool :=
+  forallb srec_ok (rr_rets r) &&
+  match rr_cur r with
+  | Some cur =>
+      Z.leb 0 (rr_count r) &&
+      Z.leb (rr_count r) (Z.of_nat (length (filter (N.eqb cur) (rr_pending r))))
+  | None => Z.eqb (rr_count r) 0
+  end.
+
 (** * the check *)
 Definition check_case (c : case) : bool :=
   match c with
   | CaseStress _ recs => forallb srec_ok recs
+  | CaseRace _ rounds => forallb rround_ok rounds
   | CaseMem _ keys steps => match run_mem keys steps with Some _ => true | None => false end
   | CasePoll _ steps waiting => match run_poll steps waiting with Some _ => true | None => false end
   end.
@@ -417,24 +580,78 @@ Record view := mkView {
   vw_store : list (key * option N);
   vw_observed : option obs }.          (* at the step that disagrees: what the implementation did *)
 
+Definition view_of (keys : list key) (s s2 : st) (ok : bool) (ls : list label) (ob : option obs) : view :=
+  mkView ok ls (newly_done s s2) (parked_list (thr s2) 0)
+         (map (fun k => (k, tbl s2 k)) keys)
+         (map (fun k => (k, option_map r_ver (store s2 k))) keys) ob.
+
+(** every quiescent state the model can reach by the burst (all interleavings, no pruning
+    by the observation), as views; at most [cap] of them *)
+Fixpoint outcomes (fuel : nat) (mac : label -> list label) (ordered : bool) (s : st) (vb : bij)
+    (pend : list sop) (acc : list label) : list (st * list label) :=
+  match fuel with
+  | O => []
+  | S f =>
+      let en := all_enabled s in
+      match pend, en with
+      | [], [] => [(s, rev acc)]
+      | _, _ =>
+          flat_map (fun p =>
+              match apply_sop s vb (fst p) with
+              | Some (s1, vb1, ls1) => outcomes f mac ordered s1 vb1 (snd p) (rev_append ls1 acc)
+              | None => []
+              end) (picks ordered pend)
+          ++
+          flat_map (fun l =>
+              let m := mac l in
+              match run s m with
+              | Some s1 => outcomes f mac ordered s1 vb pend (rev_append m acc)
+              | None => []
+              end) en
+      end
+  end.
+
+Definition same_view (a b : view) : bool :=
+  ret_eqb (vw_ret a) (vw_ret b) && nats_eqb (vw_parked a) (vw_parked b) &&
+  nats_eqb (map (fun p => match snd p with Some (c, n) => S c | None => 0 end) (vw_tbl a))
+           (map (fun p => match snd p with Some (c, n) => S c | None => 0 end) (vw_tbl b)) &&
+  nats_eqb (map (fun p => match snd p with Some v => S (N.to_nat v) | None => 0 end) (vw_store a))
+           (map (fun p => match snd p with Some v => S (N.to_nat v) | None => 0 end) (vw_store b)).
+
+Fixpoint dedup_views (l : list view) (acc : list view) : list view :=
+  match l with
+  | [] => rev acc
+  | x :: tl => if existsb (same_view x) acc then dedup_views tl acc else dedup_views tl (x :: acc)
+  end.
+
 Fixpoint explain_steps (keys : list key) (v : vstate) (l : list sstep) : list view :=
   match l with
   | [] => []
   | x :: tl =>
       let s := v_st v in
-      match apply_sop s (v_vb v) (s_op x) with
-      | None => [mkView false [] [] [] [] [] (Some (s_obs x))]
-      | Some (s1, _, ls1) =>
-          match saturate sat_fuel s1 [] with
-          | None => [mkView false ls1 [] [] [] [] (Some (s_obs x))]
-          | Some (s2, ls2) =>
-              let w ok ob := mkView ok (ls1 ++ ls2) (newly_done s s2) (parked_list (thr s2) 0)
-                                 (map (fun k => (k, tbl s2 k)) keys)
-                                 (map (fun k => (k, option_map r_ver (store s2 k))) keys) ob in
-              match check_step keys v x with
-              | Some v' => w true None :: explain_steps keys v' tl
-              | None => [w false (Some (s_obs x))]
+      match x with
+      | mkStep op o =>
+          match apply_sop s (v_vb v) op with
+          | None => [mkView false [] [] [] [] [] (Some o)]
+          | Some (s1, _, ls1) =>
+              match saturate sat_fuel s1 [] with
+              | None => [mkView false ls1 [] [] [] [] (Some o)]
+              | Some (s2, ls2) =>
+                  match check_step keys v x with
+                  | Some v' => view_of keys s s2 true (ls1 ++ ls2) None :: explain_steps keys v' tl
+                  | None => [view_of keys s s2 false (ls1 ++ ls2) (Some o)]
+                  end
               end
+          end
+      | mkBurst ordered acts o =>
+          match check_step keys v x with
+          | Some v' =>
+              view_of keys s (v_st v') true (skipn (length (v_trace v)) (v_trace v')) None :: explain_steps keys v' tl
+          | None =>
+              (* no interleaving explains the observation: the observation, then what the model can reach *)
+              mkView false [] [] [] [] [] (Some o) ::
+              firstn 12 (dedup_views (map (fun p => view_of keys s (fst p) false (snd p) None)
+                                          (outcomes burst_fuel macro_of ordered s (v_vb v) acts [])) [])
           end
       end
   end.
@@ -444,4 +661,5 @@ Definition explain (c : case) : N * bool * list view :=
   | CaseMem id keys steps => (id, check_case c, explain_steps keys vinit steps)
   | CasePoll id _ _ => (id, check_case c, [])
   | CaseStress id _ => (id, check_case c, [])
+  | CaseRace id _ => (id, check_case c, [])
   end.
